@@ -66,8 +66,9 @@ class TopocentricFrame(frames.Frame):
             event_classes = tuple(listener.event for listener in sta_list)
 
         for point in orb.iter(**kwargs):
-            point.frame = self
-            point.form = "spherical"
+            # convert a copy: `point` itself is still the `prev` state of the listeners,
+            # which will read it again, in its own frame, at the next step
+            point = point.copy(frame=self, form="spherical")
 
             # Not very clean !
             if point.phi < 0 and not isinstance(point.event, event_classes):
